@@ -11,26 +11,27 @@ C07 — Sub-object dependencies follow the object currently attached.
    parent's behalf."
 
 Model: Depends/Paths.lean (`_update_deps`, `_spec_to_obj`, `_resolve_dynamic_deps`, `_watch_group`,
-`_skip_event`, the setter's rebinding, as written).  Helper lemmas: Depends/PathsLemmas.lean
-(`_spec_to_obj` = the walk from the root; what one rebuild installs), Depends/PathsStep.lean (one
-assignment on an installed world).  Oracle: Depends/PathsSpec.lean.
+`_skip_event`, the setter's rebinding, as written — after the repairs 90d0a70 (filter dict and
+callback from EVERY dependency of a group) and f7ea1af (ALL dynamic dependencies of the method are
+rebuilt after the pop)).  Helper lemmas: Depends/PathsLemmas.lean (`_spec_to_obj` = the walk from the
+root, what one spec asks of each holder), PathsGroups.lean (grouping, the filter dict, the rebuild),
+PathsStep*.lean (one assignment on an installed world).  Oracle: Depends/PathsSpec.lean.
 
-The sentence "This holds for every dependency of the method, including several dependencies that
-pass through the same sub-object" is FALSE of the code (and of the model, which mirrors it): every
-object on which several dependencies of a method are registered — the owner itself as soon as the
-method has two path dependencies — holds ONE watcher whose sub-path filter and parent-notification
-callback come from `group[0]` only, and `_update_deps(attribute)` removes all dynamic watchers of a
-method but rebuilds only those below `attribute`.  `C07_full` (the oracle holds of every history)
-is refuted from the witnesses the check replays (corpus/C07/*.json); the theorems below are the
-`_partial` form whose hypothesis `Scope` is the excluded class made explicit: the owner `t` is the
-only object with dependent methods, ONE method with ONE path dependency (arbitrary depth, leaf an
-ordinary Parameter), every object has the parameters the path names.  `Installed` (the watchers of
-`t.m` are exactly those of a walk along the current path) is established by the constructor, kept by
-every assignment and every construction, and implies all three parts of the statement.
-Also assumed, per state: the resolution chain visits no object twice (forest-shaped graphs).
-Not modelled: batching, slots (`a.x:bounds`), `'a.b.param'`.
+The theorems hold for a method with ANY NUMBER of path dependencies, through the same or different
+sub-objects, of any depth (`Scope`: the owner `t` is the only object with dependent methods, one
+method, leaves are ordinary integer-valued Parameters, every object has the parameters the paths
+name).  `Installed` — the watchers of `t.m` are exactly one per object that currently holds one of
+its dependencies, with the filter and callback all those dependencies ask for — is established by
+the constructor, kept by every assignment and every construction, and implies all parts of the
+statement.  Assumed per state (`Simple`): no resolution chain visits an object twice.  Without it the
+statement is still false of the code: `_resolve_dynamic_deps` locates a holder by the FIRST position
+of the object in the chain, so with an object attached below itself (`t.a = t`, `@depends('a.x')`) a
+leaf assignment is compared through the wrong sub-path and skipped — `C07_full` (every history) is
+refuted from that witness (recorded finding `object-attached-below-itself`, corpus/C07/self-cycle.json).
+Not modelled: batching, slots (`a.x:bounds`), `'a.b.param'`; `'a.param'`, several methods and several
+owners are covered by the differential run and the oracle only.
 -/
-import ParamVerif.Depends.PathsStep
+import ParamVerif.Depends.PathsStep4
 
 namespace ParamVerif.Depends
 
@@ -38,8 +39,7 @@ namespace ParamVerif.Depends
 
 /-- **Full statement**: on every history the model's own observations satisfy the specification
 (`specHistoryP`: not touched → no call; touched and a dependency's reached value changed → exactly
-one call; unchanged → none; no watcher of `t.m` outside the current chains) — for every number of
-dependencies. -/
+one call; unchanged → none; no watcher of `t.m` outside the current chains). -/
 def C07_full : Prop :=
   ∀ (classes : List PClass) (steps : List Step), wfClasses classes = true →
     (specHistoryP classes 0 [] (steps.zip (modelObs classes steps))).2 = none
@@ -48,12 +48,9 @@ def nodeCls (ms : List PMethod) : PClass := ⟨["a", "b"], ["x", "y"], ms⟩
 def mkVals (name : Int) (a b : Val) (x y : Int) : List (Name × Val) :=
   [("name", .int name), ("a", a), ("b", b), ("x", .int x), ("y", .int y)]
 
-/-- witness (design probe p5): `@depends('a.x', 'a.y', watch=True) m`; the sub-object is replaced by
-one that differs only in `y` — `m` is not called -/
-def witnessClasses : List PClass := [nodeCls [], nodeCls [⟨"m", [⟨["a"], "x"⟩, ⟨["a"], "y"⟩]⟩]]
-def witnessSteps : List Step := [
-  .new 0 (mkVals 0 .none .none 5 2), .new 0 (mkVals 0 .none .none 5 7),
-  .new 1 (mkVals 0 (.ref 0) .none 0 0), .set 2 "a" (.ref 1)]
+/-- witness: the owner attached below itself; `t.x = 5` is skipped -/
+def witnessClasses : List PClass := [nodeCls [], nodeCls [⟨"m", [⟨["a"], "x"⟩]⟩]]
+def witnessSteps : List Step := [.new 1 (mkVals 0 .none .none 0 0), .set 0 "a" (.ref 0), .set 0 "x" (.int 5)]
 
 theorem C07_full_refuted : ¬ C07_full := by
   intro H
@@ -61,102 +58,112 @@ theorem C07_full_refuted : ¬ C07_full := by
   revert this
   decide
 
-/-- second witness (dependencies below different sub-objects): `@depends('a.x', 'b.y')`; after
-replacing `a`, a change of `b.y` is no longer announced -/
-def witnessClasses2 : List PClass := [nodeCls [], nodeCls [⟨"m", [⟨["a"], "x"⟩, ⟨["b"], "y"⟩]⟩]]
-def witnessSteps2 : List Step := [
+/-- the former witnesses (before 90d0a70 / f7ea1af) now satisfy the specification -/
+def sharedClasses : List PClass := [nodeCls [], nodeCls [⟨"m", [⟨["a"], "x"⟩, ⟨["a"], "y"⟩]⟩]]
+def sharedSteps : List Step := [
+  .new 0 (mkVals 0 .none .none 5 2), .new 0 (mkVals 0 .none .none 5 7),
+  .new 1 (mkVals 0 (.ref 0) .none 0 0), .set 2 "a" (.ref 1)]
+def rootsClasses : List PClass := [nodeCls [], nodeCls [⟨"m", [⟨["a"], "x"⟩, ⟨["b"], "y"⟩]⟩]]
+def rootsSteps : List Step := [
   .new 0 (mkVals 0 .none .none 0 0), .new 0 (mkVals 0 .none .none 0 0), .new 0 (mkVals 0 .none .none 4 0),
   .new 1 (mkVals 0 (.ref 0) (.ref 1) 0 0), .set 3 "a" (.ref 2), .set 1 "y" (.int 2)]
 
-theorem C07_full_refuted' : (specHistoryP witnessClasses2 0 [] (witnessSteps2.zip (modelObs witnessClasses2 witnessSteps2))).2 ≠ none := by
-  decide
+example : (specHistoryP sharedClasses 0 [] (sharedSteps.zip (modelObs sharedClasses sharedSteps))).2 = none := by decide
+example : (specHistoryP rootsClasses 0 [] (rootsSteps.zip (modelObs rootsClasses rootsSteps))).2 = none := by decide
 
-/-! ## The partial form: one method with one path dependency -/
+/-! ## One method, any number of path dependencies -/
 
-/-- what is assumed of a state: scope, typing of the path parameters, a simple resolution chain -/
-structure Good (w : PWorld) (t : Oid) (m : Name) (s : PathSpec) : Prop where
-  scope : Scope w t m s
-  objOnly : ObjOnly w s
-  simple : (chainObjsFrom w t s.path).Nodup
+/-- what is assumed of a state: scope, typing of the parameters the paths name, simple resolution chains -/
+structure Good (w : PWorld) (t : Oid) (m : Name) (specs : List PathSpec) : Prop where
+  scope : Scope w t m specs
+  typing : Typing w specs
+  simple : Simple w t specs
 
 /-- the oracle's notion of "touched" (`readPairs`, PathsSpec.lean) is the read set `depsFrom` the
 theorems below are stated with -/
-theorem oracle_read_set_is_the_walk {w : PWorld} {t : Oid} {m : Name} {s : PathSpec} (hg : Good w t m s) :
-    readPairs w t s = depsFrom w t s.path s.leaf := by
+theorem oracle_read_set_is_the_walk {w : PWorld} {t : Oid} {m : Name} {specs : List PathSpec} (hg : Good w t m specs)
+    {s : PathSpec} (hs : s ∈ specs) : readPairs w t s = depsFrom w t s.path s.leaf := by
   obtain ⟨ct, hct, _⟩ := hg.scope.tcls
-  have := readPairs_eq_depsFrom w s.leaf hg.scope.leaf hg.scope.hasLeaf s.path t (classOf_lt hct)
-    (fun n hn => ⟨(hg.scope.names n hn).1, (hg.scope.names n hn).2.1⟩)
+  have := readPairs_eq_depsFrom w s.leaf (hg.scope.leaf s hs) (hg.scope.hasLeaf s hs) s.path t (classOf_lt hct)
+    (fun n hn => ⟨(hg.scope.names s hs n hn).1, (hg.scope.names s hs n hn).2.1⟩)
   cases s
   exact this
 
-/-- **C07 (never because of an object that has been detached).**  An assignment to a parameter the
-current walk of the path does not read — a parameter of a detached object, or an unrelated
-parameter of an attached one — fires nothing, changes neither the value reached nor what is read,
-and leaves every watcher where it was. -/
-theorem detached_never_fires {w w' : PWorld} {t : Oid} {m : Name} {s : PathSpec} {o : Oid} {p : Name} {v : Val}
-    (hg : Good w t m s) (hi : Installed w t m s) (hstep : setParam w o p v = .ok w')
-    (hun : (o, p) ∉ depsFrom w t s.path s.leaf) :
-    w'.log = w.log ∧ follow w' (.ref t) s.elems = follow w (.ref t) s.elems ∧
-      depsFrom w' t s.path s.leaf = depsFrom w t s.path s.leaf ∧ Installed w' t m s := by
-  obtain ⟨h1, h2, _, _, h5, h6⟩ := step_untouched hg.scope hg.objOnly hi hg.simple hstep hun
-  exact ⟨h1, h6, h5, h2⟩
+/-- **C07 (never because of an object that has been detached).**  An assignment to a parameter that
+the current walk of NONE of the method's paths reads — a parameter of a detached object, or an
+unrelated parameter of an attached one — fires nothing, changes neither what any dependency reaches
+nor what it reads, and leaves every watcher where it was. -/
+theorem detached_never_fires {w w' : PWorld} {t : Oid} {m : Name} {specs : List PathSpec} {o : Oid} {p : Name} {v : Val}
+    (hg : Good w t m specs) (hi : Installed w t m specs) (hstep : setParam w o p v = .ok w')
+    (hun : ∀ s ∈ specs, (o, p) ∉ depsFrom w t s.path s.leaf) :
+    w'.log = w.log ∧ Installed w' t m specs ∧
+      ∀ s ∈ specs, follow w' (.ref t) s.elems = follow w (.ref t) s.elems ∧
+        depsFrom w' t s.path s.leaf = depsFrom w t s.path s.leaf := by
+  obtain ⟨h1, h2, _, _, h5⟩ := step_untouched hg.scope hg.typing hi hg.simple hstep hun
+  exact ⟨h1, h2, fun s hs => ⟨(h5 s hs).2, (h5 s hs).1⟩⟩
 
-/-- **C07 (fires exactly once iff the value reached through the current path changes), partial.**
-An assignment to a parameter the walk reads — the root attribute of the owner, an attribute of an
-attached intermediate object, or the leaf parameter of the attached last object — where the
-assigned slot holds something (an object / a value, not `None`) before and after: the log gains
-exactly one call of the method if the value at the end of the path differs between before and after
-(compared as a changes-only watcher compares), and none otherwise. -/
-theorem fires_iff_reached_value_changes_partial {w w' : PWorld} {t : Oid} {m : Name} {s : PathSpec}
+/-- **C07 (fires exactly once iff the value reached through the current path changes — for every
+dependency of the method).**  An assignment to a parameter that the walk of at least one dependency
+reads — a root attribute of the owner, an attribute of an attached intermediate object, a leaf
+parameter of an attached last object, shared by several dependencies or not — where the assigned
+slot holds something (an object / a value, not `None`) before and after: the log gains exactly one
+call of the method if for SOME dependency the value at the end of its path differs between before
+and after (compared as a changes-only watcher compares), and no call if it differs for none. -/
+theorem fires_iff_reached_value_changes {w w' : PWorld} {t : Oid} {m : Name} {specs : List PathSpec}
     {o : Oid} {p : Name} {v old : Val}
-    (hg : Good w t m s) (hi : Installed w t m s) (hstep : setParam w o p v = .ok w')
-    (hsim' : (chainObjsFrom w' t s.path).Nodup)
-    (hto : (o, p) ∈ depsFrom w t s.path s.leaf) (hold : getParam w o p = some old) (ho : old ≠ .none) (hv : v ≠ .none) :
-    w'.log = w.log ++ (if valEq (follow w (.ref t) s.elems) (follow w' (.ref t) s.elems) then []
+    (hg : Good w t m specs) (hi : Installed w t m specs) (hstep : setParam w o p v = .ok w')
+    (hsim' : Simple w' t specs)
+    (hto : ∃ s ∈ specs, (o, p) ∈ depsFrom w t s.path s.leaf) (hold : getParam w o p = some old)
+    (ho : old ≠ .none) (hv : v ≠ .none) :
+    w'.log = w.log ++ (if specs.all (fun s => valEq (follow w (.ref t) s.elems) (follow w' (.ref t) s.elems)) then []
       else [⟨t, m, readsOf w' t m⟩]) := by
   by_cases hot : o = t
   · subst hot
-    obtain ⟨n0, _, _, hroot, hfirst, _⟩ := built_unfold hg.scope
-    have hp : p = s.root := by rw [hroot]; exact deps_snd_unique hg.simple hto hfirst
-    exact (step_root hg.scope hg.objOnly hi hg.simple hstep hp hsim').2.2.2 old hold ho hv
-  · exact (step_deeper hg.scope hg.objOnly hi hg.simple hstep hot hto hsim').2.2.2 old hold ho hv
+    obtain ⟨s, hs, h⟩ := hto
+    obtain ⟨n0, rest0, hpe⟩ := List.exists_cons_of_ne_nil (hg.scope.path s hs)
+    have hp : s.root = p := by rw [root_dep_unique hpe (hg.simple s hs) h]; simp [PathSpec.root, hpe]
+    exact (step_root hg.scope hg.typing hi hg.simple hstep ⟨s, hs, hp⟩ hsim').2.2.2 old hold ho hv
+  · exact (step_deeper hg.scope hg.typing hi hg.simple hstep hot hto).2.2.2 old hold ho hv
 
 /-- **C07 (the invariant is kept by every assignment).**  Whatever is assigned — attach, replace,
 detach at any level, leaf values, on attached or detached objects — afterwards the watchers of `t.m`
-are again exactly those of a walk along the (new) current path. -/
-theorem installed_preserved_by_assignment {w w' : PWorld} {t : Oid} {m : Name} {s : PathSpec} {o : Oid} {p : Name} {v : Val}
-    (hg : Good w t m s) (hi : Installed w t m s) (hstep : setParam w o p v = .ok w')
-    (hsim' : (chainObjsFrom w' t s.path).Nodup) : Installed w' t m s ∧ Good w' t m s := by
-  by_cases hto : (o, p) ∈ depsFrom w t s.path s.leaf
+are again exactly those the (new) current paths need. -/
+theorem installed_preserved_by_assignment {w w' : PWorld} {t : Oid} {m : Name} {specs : List PathSpec}
+    {o : Oid} {p : Name} {v : Val}
+    (hg : Good w t m specs) (hi : Installed w t m specs) (hstep : setParam w o p v = .ok w')
+    (hsim' : Simple w' t specs) : Installed w' t m specs ∧ Good w' t m specs := by
+  by_cases hto : ∃ s ∈ specs, (o, p) ∈ depsFrom w t s.path s.leaf
   · by_cases hot : o = t
     · subst hot
-      obtain ⟨n0, _, _, hroot, hfirst, _⟩ := built_unfold hg.scope
-      have hp : p = s.root := by rw [hroot]; exact deps_snd_unique hg.simple hto hfirst
-      obtain ⟨h1, h2, h3, _⟩ := step_root hg.scope hg.objOnly hi hg.simple hstep hp hsim'
+      obtain ⟨s, hs, h⟩ := hto
+      obtain ⟨n0, rest0, hpe⟩ := List.exists_cons_of_ne_nil (hg.scope.path s hs)
+      have hp : s.root = p := by rw [root_dep_unique hpe (hg.simple s hs) h]; simp [PathSpec.root, hpe]
+      obtain ⟨h1, h2, h3, _⟩ := step_root hg.scope hg.typing hi hg.simple hstep ⟨s, hs, hp⟩ hsim'
       exact ⟨h1, h2, h3, hsim'⟩
-    · obtain ⟨h1, h2, h3, _⟩ := step_deeper hg.scope hg.objOnly hi hg.simple hstep hot hto hsim'
+    · obtain ⟨h1, h2, h3, _⟩ := step_deeper hg.scope hg.typing hi hg.simple hstep hot hto
       exact ⟨h1, h2, h3, hsim'⟩
-  · obtain ⟨_, h2, h3, h4, _, _⟩ := step_untouched hg.scope hg.objOnly hi hg.simple hstep hto
+  · have hun : ∀ s ∈ specs, (o, p) ∉ depsFrom w t s.path s.leaf := fun s hs h => hto ⟨s, hs, h⟩
+    obtain ⟨_, h2, h3, h4, _⟩ := step_untouched hg.scope hg.typing hi hg.simple hstep hun
     exact ⟨h2, h3, h4, hsim'⟩
 
 /-- **C07 (no watcher left on a detached object).**  In an installed state every watcher calling
-`t.m` sits on an object of the current resolution chain of the path — so after any assignment
-(previous theorem) no detached object holds a watcher on the owner's behalf. -/
-theorem no_watcher_left_on_detached {w : PWorld} {t : Oid} {m : Name} {s : PathSpec}
-    (hg : Good w t m s) (hi : Installed w t m s) :
-    ∀ x ∈ w.watchers, x.on ∈ chainObjsFrom w t s.path ∧ x.owner = t ∧ x.method = m :=
-  installed_on_chain hg.scope hi hg.simple
+`t.m` sits on an object of the current resolution chain of one of the method's paths — so after any
+assignment (previous theorem) no detached object holds a watcher on the owner's behalf. -/
+theorem no_watcher_left_on_detached {w : PWorld} {t : Oid} {m : Name} {specs : List PathSpec}
+    (hi : Installed w t m specs) :
+    ∀ x ∈ w.watchers, (∃ s ∈ specs, x.on ∈ chainObjsFrom w t s.path) ∧ x.owner = t ∧ x.method = m :=
+  installed_on_chain hi
 
 /-- the constructor of the owner (`_update_deps(init=True)`) establishes the invariant, calling nothing -/
-theorem installed_by_constructor {w w' : PWorld} {cls : Nat} {vals : List (Name × Val)} {t : Oid} {m : Name} {s : PathSpec}
-    (hnew : newObj w cls vals = .ok w') (ht : t = w.objs.length) (hw : w.watchers = [] ∧ w.dyn = [])
-    (hg' : Good w' t m s) : Installed w' t m s ∧ w'.log = w.log :=
-  new_owner_installed hnew ht hw hg'.scope hg'.simple
+theorem installed_by_constructor {w w' : PWorld} {cls : Nat} {vals : List (Name × Val)} {t : Oid} {m : Name}
+    {specs : List PathSpec} (hnew : newObj w cls vals = .ok w') (ht : t = w.objs.length)
+    (hw : w.watchers = [] ∧ w.dyn = []) (hg' : Good w' t m specs) : Installed w' t m specs ∧ w'.log = w.log :=
+  new_owner_installed hnew ht hw hg'.scope
 
 /-- states reached along a history all satisfy the standing assumptions -/
-def AllGood (t : Oid) (m : Name) (s : PathSpec) : PWorld → List Step → Prop
-  | w, [] => Good w t m s
-  | w, st :: rest => Good w t m s ∧ ∀ w1, runStep w st = .ok w1 → AllGood t m s w1 rest
+def AllGood (t : Oid) (m : Name) (specs : List PathSpec) : PWorld → List Step → Prop
+  | w, [] => Good w t m specs
+  | w, st :: rest => Good w t m specs ∧ ∀ w1, runStep w st = .ok w1 → AllGood t m specs w1 rest
 
 def runSteps : PWorld → List Step → Except PErr PWorld
   | w, [] => .ok w
@@ -169,8 +176,9 @@ def runSteps : PWorld → List Step → Except PErr PWorld
 From an installed state, along every history of assignments and constructions whose states satisfy
 the standing assumptions, the invariant holds at the end (hence at every point): the single-step
 theorems above apply to every step of every history. -/
-theorem history_keeps_installed (t : Oid) (m : Name) (s : PathSpec) : ∀ (steps : List Step) (w w' : PWorld),
-    Installed w t m s → AllGood t m s w steps → runSteps w steps = .ok w' → Installed w' t m s ∧ Good w' t m s := by
+theorem history_keeps_installed (t : Oid) (m : Name) (specs : List PathSpec) : ∀ (steps : List Step) (w w' : PWorld),
+    Installed w t m specs → AllGood t m specs w steps → runSteps w steps = .ok w' →
+    Installed w' t m specs ∧ Good w' t m specs := by
   intro steps
   induction steps with
   | nil =>
@@ -186,11 +194,11 @@ theorem history_keeps_installed (t : Oid) (m : Name) (s : PathSpec) : ∀ (steps
     · simp at hr
     · rename_i w1 h1
       have hall := hnext w1 h1
-      have hg1 : Good w1 t m s := by
+      have hg1 : Good w1 t m specs := by
         cases rest with
         | nil => exact hall
         | cons _ _ => exact hall.1
-      have hi1 : Installed w1 t m s := by
+      have hi1 : Installed w1 t m specs := by
         cases st with
         | set o p v => exact (installed_preserved_by_assignment hg0 hi h1 hg1.simple).1
         | new cls vals => exact (new_other_installed h1 hg0.scope hi hg1.scope).1
@@ -198,9 +206,9 @@ theorem history_keeps_installed (t : Oid) (m : Name) (s : PathSpec) : ∀ (steps
 
 /-! ## Non-vacuity -/
 
--- a depth-2 history: two leaves, a middle object, the owner with `@depends('a.b.x')`, constructed attached
+-- (1) a depth-2 path: two leaves, a middle object, the owner with `@depends('a.b.x')`, constructed attached
 def exClasses : List PClass := [nodeCls [], nodeCls [⟨"m", [⟨["a", "b"], "x"⟩]⟩]]
-def exSpec : PathSpec := ⟨["a", "b"], "x"⟩
+def exSpecs : List PathSpec := [⟨["a", "b"], "x"⟩]
 def exSteps : List Step := [
   .new 0 (mkVals 0 .none .none 1 0),            -- 0: leaf x=1
   .new 0 (mkVals 0 .none (.ref 0) 0 0),         -- 1: middle, b = leaf 0
@@ -209,19 +217,40 @@ def exSteps : List Step := [
 def exW0 : PWorld := (runSteps (emptyWorld exClasses) exSteps).toOption.getD (emptyWorld exClasses)
 def exW : PWorld := (newObj exW0 1 (mkVals 0 (.ref 1) .none 0 0)).toOption.getD exW0   -- 4: the owner, a = middle
 
-example : Good exW 4 "m" exSpec := ⟨scopeB_spec (by decide), objOnlyB_spec (by decide), by decide⟩
-example : Installed exW 4 "m" exSpec :=
+example : Good exW 4 "m" exSpecs := ⟨scopeB_spec (by decide), typingB_spec (by decide), simpleB_spec (by decide)⟩
+example : Installed exW 4 "m" exSpecs :=
   (installed_by_constructor (w := exW0) (cls := 1) (vals := mkVals 0 (.ref 1) .none 0 0) (by rfl) (by decide)
-    (by decide) ⟨scopeB_spec (by decide), objOnlyB_spec (by decide), by decide⟩).1
--- three watchers: on the owner (filter b.x), on the middle object (filter x, callback), on the leaf
+    (by decide) ⟨scopeB_spec (by decide), typingB_spec (by decide), simpleB_spec (by decide)⟩).1
 example : exW.watchers.map shapeOf =
-    [⟨4, ["a"], some [["b", "x"]], false⟩, ⟨1, ["b"], some [["x"]], true⟩, ⟨0, ["x"], none, false⟩] := by decide
--- leaf assignment on the attached leaf fires; replacing the leaf by an equal one does not, by a different one does;
--- the detached leaf keeps no watcher and no longer fires
+    [⟨4, ["a"], [("a", some [["b", "x"]])], false⟩, ⟨1, ["b"], [("b", some [["x"]])], true⟩, ⟨0, ["x"], [("x", none)], false⟩] := by decide
 example : ((setParam exW 0 "x" (.int 2)).toOption.map (·.log.length)) = some 1 := by decide
 example : ((setParam exW 1 "b" (.ref 2)).toOption.map (·.log.length)) = some 0 := by decide
 example : ((setParam exW 1 "b" (.ref 3)).toOption.map (fun w => (w.log.length, w.watchers.map (·.on)))) = some (1, [4, 1, 3]) := by decide
-example : (((setParam exW 1 "b" (.ref 3)).toOption.bind (fun w => (setParam { w with log := [] } 0 "x" (.int 9)).toOption)).map (·.log.length)) = some 0 := by decide
-example : (0, "x") ∈ depsFrom exW 4 exSpec.path exSpec.leaf ∧ (2, "x") ∉ depsFrom exW 4 exSpec.path exSpec.leaf := by decide
+example : (0, "x") ∈ depsFrom exW 4 ["a", "b"] "x" ∧ (2, "x") ∉ depsFrom exW 4 ["a", "b"] "x" := by decide
+
+-- (2) two dependencies through the SAME sub-object and (3) through DIFFERENT sub-objects: the hypotheses
+-- hold in the states of the former counterexamples
+def shW0 : PWorld := (runSteps (emptyWorld sharedClasses) (sharedSteps.take 2)).toOption.getD (emptyWorld sharedClasses)
+def shW : PWorld := (newObj shW0 1 (mkVals 0 (.ref 0) .none 0 0)).toOption.getD shW0
+def shSpecs : List PathSpec := [⟨["a"], "x"⟩, ⟨["a"], "y"⟩]
+example : Good shW 2 "m" shSpecs := ⟨scopeB_spec (by decide), typingB_spec (by decide), simpleB_spec (by decide)⟩
+example : Installed shW 2 "m" shSpecs :=
+  (installed_by_constructor (w := shW0) (cls := 1) (vals := mkVals 0 (.ref 0) .none 0 0) (by rfl) (by decide)
+    (by decide) ⟨scopeB_spec (by decide), typingB_spec (by decide), simpleB_spec (by decide)⟩).1
+-- one watcher on the owner (filter for `a`: both sub-paths), one on the sub-object for x and y
+example : shW.watchers.map shapeOf =
+    [⟨2, ["a"], [("a", some [["x"], ["y"]])], false⟩, ⟨0, ["x", "y"], [("x", none), ("y", none)], false⟩] := by decide
+-- replacing the sub-object by one that differs only in `y` now calls `m` once
+example : ((setParam shW 2 "a" (.ref 1)).toOption.map (·.log.length)) = some 1 := by decide
+
+def rtW0 : PWorld := (runSteps (emptyWorld rootsClasses) (rootsSteps.take 3)).toOption.getD (emptyWorld rootsClasses)
+def rtW : PWorld := (newObj rtW0 1 (mkVals 0 (.ref 0) (.ref 1) 0 0)).toOption.getD rtW0
+def rtSpecs : List PathSpec := [⟨["a"], "x"⟩, ⟨["b"], "y"⟩]
+example : Good rtW 3 "m" rtSpecs := ⟨scopeB_spec (by decide), typingB_spec (by decide), simpleB_spec (by decide)⟩
+example : Installed rtW 3 "m" rtSpecs :=
+  (installed_by_constructor (w := rtW0) (cls := 1) (vals := mkVals 0 (.ref 0) (.ref 1) 0 0) (by rfl) (by decide)
+    (by decide) ⟨scopeB_spec (by decide), typingB_spec (by decide), simpleB_spec (by decide)⟩).1
+-- after replacing `a`, a change of `b.y` is still announced
+example : (((setParam rtW 3 "a" (.ref 2)).toOption.bind (fun w => (setParam { w with log := [] } 1 "y" (.int 2)).toOption)).map (·.log.length)) = some 1 := by decide
 
 end ParamVerif.Depends
